@@ -655,4 +655,16 @@ theorem C18_events_keep_effects :
       "ev.note == XMP_KEY_OFF" ∈ w.1 ∧ "ev.fxt == FX_EXTENDED" ∈ w.1 ∧ "MSN(ev.fxp) == EX_DELAY" ∈ w.1) := by
   decide
 
+/-- **A refused player mode is undone before the scan is repeated** (facts regenerated from src/control.c): in
+the branch of `xmp_set_player(XMP_PLAYER_MODE)` taken when nothing is playable under the new mode, the old mode,
+quirks, flow mode, event reader and period type are all put back first and the rescan is the last statement —
+so the scan data the player reads afterwards is the old mode's (what the `refused_changed` oracle observes). -/
+theorem C18_refused_mode_rescans_last :
+    Gen.C18Events.refusedModeCleanup.getLast? = some "libxmp_scan_sequences(ctx)" ∧
+    "libxmp_scan_sequences(ctx)" ∉ Gen.C18Events.refusedModeCleanup.dropLast ∧
+    "p->mode = old_mode" ∈ Gen.C18Events.refusedModeCleanup ∧ "m->quirk = quirk" ∈ Gen.C18Events.refusedModeCleanup ∧
+    "m->read_event_type = read_event_type" ∈ Gen.C18Events.refusedModeCleanup ∧
+    "m->flow_mode = flow_mode" ∈ Gen.C18Events.refusedModeCleanup := by
+  decide
+
 end Xmp.LinFlow
